@@ -73,10 +73,16 @@ func c01Cont() []contLetter {
 var c01Startups = []struct {
 	Name string
 	KV   []string
+	Tail string // bytes inside the start-up packet behind the terminator of the parameter list
 }{
-	{"user only", []string{"user", "alice"}},
-	{"user+database", []string{"user", "alice", "database", "db1"}},
-	{"no parameters", nil},
+	{"user only", []string{"user", "alice"}, ""},
+	{"user+database", []string{"user", "alice", "database", "db1"}, ""},
+	{"no parameters", nil, ""},
+	{"user, and the bytes good\\0 behind the terminator of the parameter list", []string{"user", "alice"}, "good\x00"},
+}
+
+func c01StartupBytes(i int) []byte {
+	return pgproto.Untyped(append(pgproto.StartupBody(c01Startups[i].KV...), c01Startups[i].Tail...))
 }
 
 func init() {
@@ -287,7 +293,7 @@ func c01Run(startup int, l pwLetter, cont []contLetter, pipelined bool) explore.
 	}
 	defer one.Stop()
 	kv := c01Startups[startup].KV
-	out, st := one.Step(pgproto.Startup(kv...))
+	out, st := one.Step(c01StartupBytes(startup))
 	if k := harness.Kinds(out); k != "R" || st != memnet.Parked {
 		res.Fail("password-request", fmt.Sprintf("startup answered with %q (%s), expected the cleartext password request only", k, st))
 		return res
@@ -421,7 +427,7 @@ func c01Run(startup int, l pwLetter, cont []contLetter, pipelined bool) explore.
 			return res
 		}
 		defer r1.Stop()
-		refStart, _ := r1.Step(pgproto.Startup(kv...))
+		refStart, _ := r1.Step(c01StartupBytes(startup))
 		var refAfter []byte
 		if pipelined {
 			var seg []byte
